@@ -3,3 +3,9 @@ pub mod sctp_rig;
 pub mod latch_enum;
 pub mod codec_diff;
 pub mod srtp_gate;
+pub mod srtp_diff;
+pub mod dtls_rec;
+pub mod dtls_rig;
+pub mod demux_bridge;
+pub mod stun_diff;
+pub mod ice_attack;
